@@ -523,6 +523,13 @@ func vkProbeTimeout(pi time.Duration, div int64) time.Duration {
 
 func (s *vkSim) addr(i int) string { return fmt.Sprintf("10.0.0.%d:7946", i%16+1) }
 
+// kind 17 row: the incarnation a process had reached when it was stopped (nothing it announces later can leave it)
+func (s *vkSim) endOfLife(a int) {
+	s.vn.mu.Lock()
+	s.vn.logEv(s.vn.now(), 17, int64(a), int64(s.ms[a].incarnation.Load()))
+	s.vn.mu.Unlock()
+}
+
 // views of every live node: kind 8 rows (node, subject, state, incarnation) and kind 9 (node, own incarnation, meta)
 func (s *vkSim) snapshot(kindView, kindOwn int64) {
 	vn := s.vn
@@ -642,6 +649,7 @@ func vkRun(t *testing.T, c *vfCase, st *vfStats) {
 					// the usual way to depart: Leave, then Shutdown
 					s.ms[a].Shutdown()
 					s.live[a] = false
+					s.endOfLife(a)
 				}
 			}
 		case 3:
@@ -664,6 +672,7 @@ func vkRun(t *testing.T, c *vfCase, st *vfStats) {
 				s.ms[a].transport.Shutdown()
 				s.ms[a].Shutdown()
 				s.live[a] = false
+				s.endOfLife(a)
 			}
 		case 4:
 			if s.ms[a] != nil && !s.live[a] {
@@ -867,7 +876,11 @@ func vkGenHealthy(r *vfRng, thorough bool) vfCase {
 			for used[b] {
 				b = r.n(N)
 			}
-			ops = append(ops, []int64{int64(r.n(int(2 * pi))), 14, int64(v), int64(b)})
+			gap := int64(r.n(int(2 * pi)))
+			if r.chance(50) {
+				gap = int64(r.n(3)) // the replacement is up before anybody has probed the old name
+			}
+			ops = append(ops, []int64{gap, 14, int64(v), int64(b)})
 		}
 		if k+1 < ncrash {
 			ops = append(ops, []int64{int64(r.n(int(3 * pi))), 0, 0, 0})
@@ -978,7 +991,11 @@ func vkGenFaults(r *vfRng, thorough bool) vfCase {
 				live[a] = false
 				nlive--
 				taken[a] = true
-				ops = append(ops, []int64{dt, 3, int64(a), 0}, []int64{int64(20 + r.n(400)), 14, int64(a), int64(b)})
+				gap := int64(20 + r.n(400))
+				if r.chance(50) {
+					gap = int64(r.n(3))
+				}
+				ops = append(ops, []int64{dt, 3, int64(a), 0}, []int64{gap, 14, int64(a), int64(b)})
 			}
 		case 10:
 			// accused, refutes, then really crashes
